@@ -36,6 +36,8 @@ pub struct TestModel {
     /// chain -> delay per evaluation (microseconds)
     pub delays: HashMap<i64, u64>,
     pub last_chain: Mutex<HashMap<std::thread::ThreadId, i64>>,
+    /// densities announce unrecoverable faults in the event stream (off for the sequential reference)
+    pub announce: bool,
 }
 
 impl Model for TestModel {
@@ -54,6 +56,9 @@ impl Model for TestModel {
         }
         if let Some(d) = self.delays.get(&chain) {
             lp.delay_us = *d;
+        }
+        if self.announce {
+            lp.announce = Some(chain);
         }
         Ok(CpuMath::new(lp))
     }
@@ -354,12 +359,13 @@ fn run_one<S: Settings>(sc: &J) -> Vec<J> {
         init_fail: ids("init_fail"),
         delays: delays.clone(),
         last_chain: Mutex::new(HashMap::new()),
+        announce: true,
     };
     let total = settings.hint_num_tune() + settings.hint_num_draws();
     // sequential reference (no faults, no delays): Full(i)
     // density faults are part of the density (a function of the chain's own evaluation count), so the
     // reference keeps them; failures of the environment (model construction, init, storage) and speed are dropped
-    let ref_model = TestModel { math_fail: vec![], init_fail: vec![], delays: HashMap::new(), ..mk_model() };
+    let ref_model = TestModel { math_fail: vec![], init_fail: vec![], delays: HashMap::new(), announce: false, ..mk_model() };
     let mut full_pos = vec![];
     let mut full_rec = vec![];
     for c in 0..nchains as u64 {
